@@ -190,6 +190,14 @@ def auto_accept(body, kind, bb):
                         for _ in range(6):
                             if q is None or q.get('p'):
                                 break
+                            # a value that is (a widening of) a u8 / u16 indexes an array at least that large
+                            bits_ = {'u8': 256, 'u16': 65536}.get(body.local_ty(q['l']))
+                            if bits_ is not None and bits_ <= n_:
+                                return 'index is a widened %s into an array of %d' % (body.local_ty(q['l']), n_)
+                            cds = [x for x in body.defs().get(q['l'], []) if x[2] == 'call']
+                            if len(cds) == 1 and (cds[0][3].get('callee') or '').endswith(('convert::From::from', 'convert::Into::into')) and len(cds[0][3]['args']) == 1:
+                                q = op_place(cds[0][3]['args'][0])
+                                continue
                             ds = [x for x in body.defs().get(q['l'], []) if x[2] == 'assign']
                             if len(ds) != 1:
                                 break
@@ -289,6 +297,14 @@ def depth_rule(ctx):
                         nb = si['variants'].get('None')
                         if nb is not None and all_paths_err(dec, nb):
                             ok = True
+    if not ok:
+        # combinator form: `x.checked_sub(1).map(Self::new).ok_or_else(|| Err..)`: the returned Result comes from
+        # ok_or / ok_or_else applied (through map) to the checked_sub, and nothing else
+        ro = return_origin(dec)
+        for bb, t in cs:
+            if origin(dec, t['args'][1]).consts() == {1} and any(c is t for c in ro.calls) and 'ok_or' in ro.flags and \
+                    not [a for a in ro.atoms if a[0] == 'agg' and a[1] == 'core::result::Result' and a[2] == 'Ok']:
+                ok = True
     if not ok:
         # equivalent form: `if x == 0 { return Err } ; x - 1`
         for bb in sorted(dec.live_blocks()):
